@@ -222,3 +222,28 @@ class I2Reversed(Integrator):
         self.stage1()
         self.update_domain()
         self.do_post_stage(dt, 1)
+
+
+class SD(IntegratorStep):
+    """py_stage1 changes the number of real particles (as an inlet/outlet or
+    split/merge hook would): the stage must visit exactly the real particles
+    present after the hook."""
+    def py_stage1(self, dst, t, dt):
+        n = dst.get_number_of_particles(True)
+        if int(round(float(t)*64.0)) % 2 == 0 and n > 3:
+            dst.remove_particles([n - 1])
+        else:
+            extra = dst.extract_particles([0])
+            extra.x[:] = extra.x + 0.03125
+            dst.append_parray(extra)
+        PYLOG.append(('py_stage1', dst.name, float(t), float(dt),
+                      int(dst.get_number_of_particles(True))))
+
+    def stage1(self, d_idx, d_x, d_y, d_u, d_v, d_au, d_av, d_tr, d_q, t,
+               dt):
+        d_u[d_idx] += 0.5*dt*d_au[d_idx]
+        d_v[d_idx] += 0.5*dt*d_av[d_idx]
+        d_x[d_idx] += 0.5*dt*d_u[d_idx]
+        d_y[d_idx] += 0.5*dt*d_v[d_idx]
+        d_q[d_idx] = d_q[d_idx]*0.5 + t + dt
+        d_tr[d_idx] = (d_tr[d_idx]*31 + 41) % 1000003
